@@ -12,6 +12,7 @@ void vs_quiesce(void) { struct timespec ts = {0, 2000000}; nanosleep(&ts, NULL);
 void vs_yield(void) { sched_yield(); }
 long vs_fini(void) { return 0; }
 long vs_points(void) { return 0; }
+int vs_unjoined(void) { return -1; }
 void vs_hash_region(void *p, size_t n) { (void)p; (void)n; }
 void *vs_thread_create(vs_fn f, void *arg) {
     pthread_t *t = malloc(sizeof *t);
